@@ -237,6 +237,7 @@ func HarnessC12Derived() {
 	case "counter":
 		// stored: absent | decimal text of a symbolic int | non-integer bytes
 		var cur int
+		stored := ""
 		kind := vsymChoice("stored", 3)
 		switch kind {
 		case 1:
@@ -244,9 +245,11 @@ func HarnessC12Derived() {
 			st.keys, st.vals = []string{"k"}, []string{string(t)}
 			cur = v
 		case 2:
-			junk := vsymBytes("junk", 1+vsymChoice("junklen", 2))
+			// any non-integer text, the empty string included (an existing key holding "" is not an absent key)
+			junk := vsymBytes("junk", vsymChoice("junklen", 3))
 			vsymAssume(!gIsDecimal(junk))
 			st.keys, st.vals = []string{"k"}, []string{string(junk)}
+			stored = string(junk)
 		}
 		op := vsymChoice("op", 4)
 		var out []byte
@@ -282,7 +285,7 @@ func HarnessC12Derived() {
 		}
 		if kind == 2 {
 			vsymAssert(len(out) > 0 && out[0] == '-', "non-integer-value-rejected")
-			vsymAssert(st.vals[0] != "" && len(st.keys) == 1, "store-unchanged-after-rejection")
+			vsymAssert(len(st.keys) == 1 && st.vals[0] == stored, "store-unchanged-after-rejection")
 			vsymCover("non-integer")
 			return
 		}
@@ -320,8 +323,13 @@ func HarnessC12Derived() {
 	case "multi":
 		// MSET / MSETNX / MGET over keys drawn from {a,b}
 		pool := []string{"a", "b"}
-		if vsymChoice("a-present", 2) == 1 {
+		switch vsymChoice("a-present", 3) {
+		case 1:
 			st.keys, st.vals = append(st.keys, "a"), append(st.vals, "A")
+		case 2:
+			// an existing key whose value is the empty string
+			st.keys, st.vals = append(st.keys, "a"), append(st.vals, "")
+			vsymCover("empty-value")
 		}
 		if vsymChoice("b-present", 2) == 1 {
 			st.keys, st.vals = append(st.keys, "b"), append(st.vals, "B")
@@ -392,6 +400,77 @@ func HarnessC12Derived() {
 			}
 			out := run(args...)
 			vsymAssert(vBytesEq(out, vArrayOf(items)), "mget-replies-in-request-order")
+		}
+	case "seq":
+		// short programs of derived commands on one server: state a command leaves behind in the
+		// framework (option structs, cursors) must not leak into the next command
+		model := map[string]string{}
+		for _, k := range []string{"a", "b"} {
+			switch vsymChoice(k+"-initial", 3) {
+			case 1:
+				model[k] = "5"
+			case 2:
+				model[k] = ""
+			}
+			if v, ok := model[k]; ok {
+				st.keys, st.vals = append(st.keys, k), append(st.vals, v)
+			}
+		}
+		bulkOrNil := func(k string) []byte {
+			if v, ok := model[k]; ok {
+				return vBulk(B(v))
+			}
+			return B("$-1\r\n")
+		}
+		steps := vsymParamInt("steps", 2)
+		for i := 0; i < steps; i++ {
+			x := string(vsymBytes("x", 1))
+			var out, want []byte
+			switch vsymChoice("op", 8) {
+			case 0:
+				y := string(vsymBytes("y", 1))
+				out = run(B("MSET"), B("a"), B(x), B("b"), B(y))
+				model["a"], model["b"] = x, y
+				want = B("+OK\r\n")
+			case 1, 2:
+				k := []string{"a", "b"}[vsymChoice("nxkey", 2)]
+				out = run(B("MSETNX"), B(k), B(x))
+				if _, ok := model[k]; ok {
+					want = vInt(0)
+				} else {
+					model[k] = x
+					want = vInt(1)
+				}
+			case 3:
+				out = run(B("INCR"), B("a"))
+				v, ok := model["a"]
+				n, err := strconv.Atoi(v)
+				if ok && err != nil {
+					vsymAssert(len(out) > 0 && out[0] == '-', "seq-counter-rejects-non-integer")
+					continue
+				}
+				model["a"] = strconv.Itoa(n + 1)
+				want = vInt(n + 1)
+			case 4:
+				out = run(B("APPEND"), B("a"), B(x))
+				model["a"] = model["a"] + x
+				want = vInt(len(model["a"]))
+			case 5:
+				out = run(B("MGET"), B("a"), B("b"))
+				want = vArrayOf([][]byte{bulkOrNil("a"), bulkOrNil("b")})
+			case 6:
+				out = run(B("STRLEN"), B("b"))
+				want = vInt(len(model["b"]))
+			case 7:
+				out = run(B("GETRANGE"), B("a"), B("0"), B("-1"))
+				want = vBulk(B(model["a"]))
+			}
+			vsymAssert(vBytesEq(out, want), "seq-reply-equals-redis-model")
+			vsymAssert(len(st.keys) == len(model), "seq-no-extra-or-missing-keys")
+			for k, v := range model {
+				j := st.find(k)
+				vsymAssert(j >= 0 && st.vals[j] == v, "seq-store-equals-redis-model")
+			}
 		}
 	case "hash":
 		nf := vsymLen("fields", 2)
